@@ -132,6 +132,10 @@ static CO_ERR COTPdoMapWrite(struct CO_OBJ_T *obj, struct CO_NODE_T *node, void 
             return (CO_ERR_OBJ_MAP_TYPE);
         }
     }
+    if ((objsz > 4) && (((maplen & 0x7) != 0) || (maplen > (objsz << 3)))) {
+        /* larger objects are mapped with whole bytes */
+        return (CO_ERR_OBJ_MAP_TYPE);
+    }
 
     /* ok, write new PDO mapping */
     result = uint32->Write(obj, node, &map, sizeof(map));
